@@ -330,14 +330,16 @@ func C01(ctx *core.Ctx) {
 				ok := false
 				detail := "op id passed to delivery is not strconv.ParseUint(getHeadersFromFrame(frame)[opIDHeader])"
 				if len(args) == 3 {
-					if tup, ok1 := ExtractOf(args[1], 0); ok1 {
+					// the op id may be parsed by a helper that is handed the frame
+					opv, back := ThroughCall(r, args[1])
+					if tup, ok1 := ExtractOf(opv, 0); ok1 {
 						if pc, ok2 := CallValue(tup); ok2 && pc.FullName() == "strconv.ParseUint" {
 							if lk, ok3 := ssax.Strip(pc.Common.Args[0]).(*ssa.Lookup); ok3 {
 								key, isConst := ConstString(lk.Index)
 								opidConst := constString(r, "opIDHeader")
 								if htup, ok4 := ExtractOf(lk.X, 0); ok4 && isConst && key == opidConst {
 									if hc, ok5 := CallValue(htup); ok5 && hc.Static != nil && len(hc.Common.Args) == 1 &&
-										IsParam(hc.Common.Args[0], f, 1) && returnsHeaderMap(hc.Static) {
+										IsParam(back(hc.Common.Args[0]), f, 1) && returnsHeaderMap(hc.Static) {
 										ok = IsParam(args[2], f, 1)
 										if !ok {
 											detail = "frame passed to delivery is not the frame whose headers were parsed"
@@ -396,7 +398,7 @@ func C01(ctx *core.Ctx) {
 			if !(c.Method != nil && c.Method.Name() == "Execute" && ssax.TypeNamed(c.Method.Type().(*types.Signature).Recv().Type(), "", "fRegistry")) {
 				continue
 			}
-			if !inCycle(c.Instr.(ssa.Instruction)) {
+			if !r.onCycle(c.Instr.(ssa.Instruction)) {
 				continue
 			}
 			frame := ssax.Strip(c.Args()[1])
@@ -891,26 +893,29 @@ func undeliverableNotError(ctx *core.Ctx, r *RT, rule string, delivery *ssa.Func
 				if nilErrorReturn(ret) || len(vs) == 0 {
 					continue
 				}
-				v := ssax.Strip(vs[len(vs)-1])
-				if tup, ok := ExtractOf(v, 1); ok {
-					if pc, ok := CallValue(tup); ok {
-						if pc.FullName() == "strconv.ParseUint" || (pc.Static != nil && returnsHeaderMap(pc.Static)) {
-							continue
+				parseErr := func(v ssa.Value) bool {
+					if tup, ok := ExtractOf(v, 1); ok {
+						if pc, ok := CallValue(tup); ok {
+							if pc.FullName() == "strconv.ParseUint" || (pc.Static != nil && returnsHeaderMap(pc.Static)) {
+								return true
+							}
 						}
 					}
-				}
-				if pc, ok := CallValue(v); ok {
-					hit := false
-					for _, t := range r.Resolve(pc) {
-						if t == delivery {
-							hit = true
+					if pc, ok := CallValue(v); ok {
+						for _, t := range r.Resolve(pc) {
+							if t == delivery {
+								return true
+							}
 						}
 					}
-					if hit {
-						continue
+					return false
+				}
+				// the error may come out of a helper that parses the frame
+				for _, o := range errorOrigins(r, vs[len(vs)-1], parseErr, 2) {
+					if !parseErr(o) {
+						bad = r.Pos(ret.Pos())
 					}
 				}
-				bad = r.Pos(ret.Pos())
 			}
 			ctx.Check(bad == "" || len(fatal) == 0, rule, ssax.Name(f)+" › errors are parse errors of this frame only", fnPos(r, f),
 				"non-nil results: getHeadersFromFrame / ParseUint error, or the delivery result", "Execute returns an error that is not a malformed-frame error at "+bad+"; reader loops close the transport on it")
